@@ -23,6 +23,7 @@
    amplifier of the OMS, exact equality when the designed gains lie on the export grid.  Those remaining cases are
    covered by the correspondence / oracle of the check. *)
 From Verif Require Import Prelude Model.Chain Model.Redesign Proofs.Chain Proofs.ChainSplit Proofs.Redesign Proofs.RedesignLine.
+From Verif Require Import Gen.RedesignGen Proofs.RedesignGen.
 From Coq Require Import QArith Lia.
 Open Scope Z_scope.
 
@@ -179,3 +180,95 @@ Example C17_ex_simparams : exists st during, set_params (Some [("method", JS "GG
   estimate_raman_gain_params st = Ok (during, st) /\ n_method (sp_nli st) = "ggn_spectrally_separated"%string /\
   r_order (sp_raman during) = JZ 2.
 Proof. exact ex_simparams. Qed.
+
+(* ---- translator tie (harness/pygen_c17.py): the definitions g_* of Gen/RedesignGen.v are re-generated on every run from
+   the source of gnpy/core/elements.py (to_json), parameters.py (FiberParams, RamanParams, NLIParams, SimParams) and
+   network.py (estimate_raman_gain); each equals the corresponding part of the model.  The model keeps exported numbers in
+   lowest terms (oqred / Qred / qred2). ---- *)
+(* Edfa.to_json: gain_target to 6 decimals, tilt_target to 5, delta_p / out_voa / in_voa as they are *)
+Theorem C17_source_edfa_to_json : forall o,
+  let gain := Some (o_gain o) in
+  let dp := o_dp o in
+  let tilt := Some (o_tilt o) in
+  let voa := Some (o_voa o) in
+  let inv := Some (o_invoa o) in
+  export_amp o =
+  mkIn (o_name o) (o_var o)
+       (g_edfa_gain gain dp tilt voa inv)
+       (oqred (g_edfa_dp gain dp tilt voa inv))
+       (g_edfa_tilt gain dp tilt voa inv)
+       (oqred (g_edfa_voa gain dp tilt voa inv))
+       (oqred (g_edfa_invoa gain dp tilt voa inv)).
+Proof. exact gen_export_amp. Qed.
+Print Assumptions C17_source_edfa_to_json.
+(* None stays None, and a gain of exactly 0 dB is exported (the test is `is not None`) *)
+Theorem C17_source_edfa_none_and_zero : forall dp voa inv,
+  g_edfa_gain None dp None voa inv = None /\ g_edfa_tilt None dp None voa inv = None /\
+  g_edfa_gain (Some 0%Q) dp None voa inv = Some (round_dec 6 0).
+Proof. exact gen_edfa_none. Qed.
+Print Assumptions C17_source_edfa_none_and_zero.
+
+(* Fiber.to_json: length [km] and loss_coef [dB/km] to 6 decimals (the model converts back to m and dB/m); the lumped
+   losses exported exactly when there are some; Roadm.to_json: design bands exported exactly when there is one *)
+Theorem C17_source_fiber_to_json : forall f,
+  f_len (export_fib f) = Qred (g_fiber_len_km (f_len f) * inject_Z 1000) /\
+  f_lc (export_fib f) = Qred (g_fiber_lc_km (f_lc f) / inject_Z 1000) /\
+  f_lumped (export_fib f) =
+  map qred2 (if g_fiber_lumped_exported (Z.of_nat (length (f_lumped f))) then f_lumped f else []).
+Proof. intros f. destruct (gen_export_fib f) as [H1 H2]. split; [exact H1 | split; [exact H2 | exact (gen_export_lumped f)]]. Qed.
+Print Assumptions C17_source_fiber_to_json.
+Theorem C17_source_roadm_to_json : forall (A : Type) (l : list A),
+  export_bands l = if g_roadm_bands_exported (Z.of_nat (length l)) then Some l else None.
+Proof. exact gen_export_bands. Qed.
+Print Assumptions C17_source_roadm_to_json.
+
+(* FiberParams: the properties Parameters.asdict copies into every span of a split fibre - among them pmd_coef AND
+   pmd_coef_defined, so a user value survives the split and is exported again *)
+Theorem C17_source_fiberparams_copied :
+  g_fiberparams_properties =
+  ["length"; "att_in"; "con_in"; "con_out"; "lumped_losses"; "dispersion"; "f_dispersion_ref"; "dispersion_slope";
+   "gamma"; "pmd_coef"; "pmd_coef_defined"; "ref_wavelength"; "ref_frequency"; "loss_coef"; "f_loss_ref";
+   "raman_coefficient"; "latency"]%string.
+Proof. exact gen_fiberparams_properties. Qed.
+Print Assumptions C17_source_fiberparams_copied.
+
+(* RamanParams / NLIParams: to_json has exactly the keys of the constructor (so to_json -> constructor round-trips)
+   and the defaults are the model's *)
+Theorem C17_source_raman_params : forall p,
+  map fst (raman_json p) = g_raman_keys /\
+  raman_of [] = Ok (mkRaman (dflt_of "flag" g_raman_defaults JNone) (dflt_of "method" g_raman_defaults JNone)
+                            (dflt_of "order" g_raman_defaults JNone)
+                            (dflt_of "result_spatial_resolution" g_raman_defaults JNone)
+                            (dflt_of "solver_spatial_resolution" g_raman_defaults JNone)) /\
+  map fst g_raman_defaults = g_raman_keys.
+Proof. exact gen_raman_params. Qed.
+Print Assumptions C17_source_raman_params.
+Theorem C17_source_nli_params : forall p,
+  map fst (nli_json p) = g_nli_keys /\
+  nli_of [] = Ok (mkNli match dflt_of "method" g_nli_defaults JNone with JS m => lower m | _ => ""%string end
+                        (dflt_of "dispersion_tolerance" g_nli_defaults JNone)
+                        (dflt_of "phase_shift_tolerance" g_nli_defaults JNone)
+                        (dflt_of "computed_channels" g_nli_defaults JNone)
+                        (dflt_of "computed_number_of_channels" g_nli_defaults JNone)) /\
+  map fst g_nli_defaults = g_nli_keys.
+Proof. exact gen_nli_params. Qed.
+Print Assumptions C17_source_nli_params.
+
+(* estimate_raman_gain: SimParams saved before set_params(sim_params), the solver sees the source's sim_params,
+   the saved settings are put back before returning (statement order: template ERG of harness/pygen_c17.py) *)
+Theorem C17_source_estimate_raman_gain : forall st,
+  estimate_raman_gain_params st =
+  let save_raman := raman_json (sp_raman st) in
+  let save_nli := nli_json (sp_nli st) in
+  let* during := set_params g_during_nli g_during_raman in
+  let* after := set_params (Some save_nli) (Some save_raman) in
+  Ok (during, after).
+Proof. exact gen_estimate_params. Qed.
+Print Assumptions C17_source_estimate_raman_gain.
+
+(* non-vacuity: the generated export on concrete values *)
+Example C17_ex_source : g_edfa_gain (Some (1234567 # 1000000000)) None None None None = Some (1235 # 1000000)
+  /\ g_fiber_len_km (80000 # 1) = 80 /\ g_fiber_lumped_exported 0 = false /\ g_fiber_lumped_exported 2 = true
+  /\ g_roadm_bands_exported 1 = true /\ g_roadm_bands_exported 0 = false
+  /\ kget "flag" match g_during_raman with Some d => d | None => [] end = Some (JB true).
+Proof. repeat split; vm_compute; reflexivity. Qed.
